@@ -24,7 +24,8 @@ const db = "db0"
 var fakeNow time.Time
 
 type Event struct {
-	Kind   string  `json:"kind"` // tick alter addgroup restart
+	Kind   string  `json:"kind"` // tick tickfail alter addgroup restart
+	Fail   int     `json:"fail,omitempty"` // tickfail: 1 = shard-duration refresh fails, 2 = index-duration refresh fails
 	Now    int64   `json:"now,omitempty"`
 	RP     int64   `json:"rp,omitempty"`
 	D      int64   `json:"d,omitempty"`
@@ -62,15 +63,23 @@ type world struct {
 	ends     map[uint64]int64
 	rpOf     map[uint64]int64
 	deleted  []uint64 // shards deleted by the last tick
+	failShardInfo, failIndexInfo bool // fault injection for one pass
+	want     map[int64]int64 // policy durations as acknowledged to the client (successful ALTERs)
 }
 
 type metaStub struct{ w *world }
 
 func (m metaStub) PruneGroupsCommand(sg bool, id uint64) error { return m.w.data.PruneGroups(sg, id) }
 func (m metaStub) GetShardDurationInfo(index uint64) (*meta.ShardDurationResponse, error) {
+	if m.w.failShardInfo {
+		return nil, errno.NewError(errno.DataIsOlder)
+	}
 	return m.w.data.DurationInfos(map[string][]uint32{db: {0}}), nil
 }
 func (m metaStub) GetIndexDurationInfo(index uint64) (*meta.IndexDurationResponse, error) {
+	if m.w.failIndexInfo {
+		return nil, errno.NewError(errno.DataIsOlder)
+	}
 	return &meta.IndexDurationResponse{}, nil
 }
 func (m metaStub) DeleteShardGroup(database, policy string, id uint64, deleteType int32) error {
@@ -118,7 +127,10 @@ func (e engStub) ClearIndexCache(db string, ptId uint32, indexID uint64) error {
 func rpName(id int64) string { return "rp" + strconv.FormatInt(id, 10) }
 
 func newWorld(pols [][2]int64) *world {
-	w := &world{unloaded: map[uint64]bool{}, ends: map[uint64]int64{}, rpOf: map[uint64]int64{}}
+	w := &world{unloaded: map[uint64]bool{}, ends: map[uint64]int64{}, rpOf: map[uint64]int64{}, want: map[int64]int64{}}
+	for _, p := range pols {
+		w.want[p[0]] = p[1]
+	}
 	w.data = &meta.Data{Databases: map[string]*meta.DatabaseInfo{}}
 	dbi := &meta.DatabaseInfo{Name: db, RetentionPolicies: map[string]*meta.RetentionPolicyInfo{}}
 	for _, p := range pols {
@@ -213,14 +225,23 @@ func (w *world) apply(ev *Event) (fails []string, ok bool) {
 	case "alter":
 		d := time.Duration(ev.D)
 		err := w.data.UpdateRetentionPolicy(db, rpName(ev.RP), &meta.RetentionPolicyUpdate{Duration: &d}, false)
-		return nil, err == nil
+		if err == nil {
+			w.want[ev.RP] = ev.D
+			if got, _ := w.polDur(ev.RP); got != ev.D {
+				fails = append(fails, fmt.Sprintf("ALTER of policy %d to duration %d was accepted but the catalogue holds %d", ev.RP, ev.D, got))
+			}
+		}
+		return fails, err == nil
 	case "restart":
 		for _, id := range w.eng.VerifShardIDs(db, 0) {
 			w.unloaded[id] = true
 		}
 		w.eng = engine.VerifNewRetentionEngine(db, 0)
 		return nil, true
-	case "tick":
+	case "tick", "tickfail":
+		w.failShardInfo = ev.Kind == "tickfail" && ev.Fail == 1
+		w.failIndexInfo = ev.Kind == "tickfail" && ev.Fail == 2
+		defer func() { w.failShardInfo, w.failIndexInfo = false, false }()
 		fakeNow = time.Unix(0, ev.Now).UTC()
 		// snapshot what the statement speaks about, before the step
 		type pre struct {
@@ -234,7 +255,7 @@ func (w *world) apply(ev *Event) (fails []string, ok bool) {
 			all = append(all, id)
 		}
 		for _, id := range all {
-			d, okp := w.polDur(w.rpOf[id])
+			d, okp := w.want[w.rpOf[id]]
 			before[id] = pre{w.ends[id], d, okp, w.listed(id)}
 		}
 		groupsBefore := map[uint64][]uint64{}
@@ -258,14 +279,14 @@ func (w *world) apply(ev *Event) (fails []string, ok bool) {
 			if gone[id] && p.listed && p.hasPol && !exp {
 				fails = append(fails, fmt.Sprintf("shard %d deleted at now=%d although end=%d d=%d (not expired under the policy in force)", id, ev.Now, p.end, p.d))
 			}
-			if !gone[id] && p.listed && p.hasPol && exp {
+			if ev.Kind == "tick" && !gone[id] && p.listed && p.hasPol && exp {
 				fails = append(fails, fmt.Sprintf("shard %d kept at now=%d although end=%d d=%d is expired (no eventual removal)", id, ev.Now, p.end, p.d))
 			}
 		}
 		// catalogue side: a group of a limited policy, all of whose shards were on this node, listed and expired
 		// before the step, must be gone from the catalogue after it
 		for gid, members := range groupsBefore {
-			allExp := len(members) > 0
+			allExp := len(members) > 0 && ev.Kind == "tick"
 			for _, id := range members {
 				p, okb := before[id]
 				if !okb || !(p.listed && p.hasPol && p.d != 0 && p.end+p.d < ev.Now) {
@@ -327,12 +348,15 @@ func genTrace(r *gen.Rand) Trace {
 			}
 			off := []int64{-hour, -1, 0, 1, 2, hour, 1000 * hour}[r.Intn(7)]
 			ev = Event{Kind: "tick", Now: g.end + d + off}
+			if r.Chance(1, 6) {
+				ev.Kind, ev.Fail = "tickfail", r.Range(1, 2)
+			}
 		}
 		fails, ok := w.apply(&ev)
 		if !ok { // rejected alteration: identity on both sides, not part of the model trace
 			continue
 		}
-		if ev.Kind == "tick" && len(w.deleted) > 0 {
+		if (ev.Kind == "tick" || ev.Kind == "tickfail") && len(w.deleted) > 0 {
 			tr.Nontriv = true
 		}
 		tr.Events = append(tr.Events, ev)
